@@ -130,7 +130,7 @@ move_to_end sort_values
 # `sort`, `fill`, ... on ndarray are in-place too; file methods write their own file object (its position)
 
 # in-place methods that store their arguments themselves / the elements of their arguments in the receiver
-STORING_SELF = set("append insert setdefault add appendleft __setitem__".split())
+STORING_SELF = set("append insert setdefault add appendleft __setitem__ fill put itemset setfield".split())
 STORING_ELEMS = set("extend update extendleft intersection_update difference_update symmetric_difference_update".split())
 # methods that write an ARGUMENT (Generator.shuffle(x), file.readinto(buf)): name -> written positional args
 ARG_WRITING_METHODS = {"shuffle": [0], "readinto": [0], "readinto1": [0], "recv_into": [0], "permuted": []}
@@ -503,52 +503,25 @@ class Program:
         self._ftypes[k0] = found if ok else None
         return self._ftypes[k0]
 
-    def plain_field(self, field):
-        if field in getattr(self, "plain_fields", ()):
-            return True
-        return self._plain_field_by_annotation(field)
+    def self_classes(self, def_cls, method):
+        """the classes an object can be an exact instance of when method `method`, as defined in class `def_cls`, runs
+        with it as `self` by ordinary dispatch: `def_cls` and the loaded subclasses that inherit that definition"""
+        out = []
+        for k in self.subclasses(def_cls):
+            m = self.find_method(k, method)
+            if m is not None and m[0] == def_cls:
+                out.append(k)
+        return out or [def_cls]
 
-    def _plain_field_by_annotation(self, field):
-        """every assignment to an attribute of this name, anywhere in the program, is `self.<field> = <parameter>` in an
-        `__init__` with the parameter annotated as a plain value (ndarray / scalar / str / Path: trusted, asserted on the
-        harness's `self` arguments), or `self.<field> = <constant>`: instances of pewlib classes hold a plain value there"""
-        if not hasattr(self, "_plain"):
-            self._plain = {}
-        if field in self._plain:
-            return self._plain[field]
-        legit, seen = set(), False
-        for k, cls in self.classes.items():
-            for init in cls.body:
-                if not (isinstance(init, ast.FunctionDef) and init.name == "__init__" and init.args.args):
-                    continue
-                rebound = {n.id for n in ast.walk(init) if isinstance(n, ast.Name) and isinstance(n.ctx, (ast.Store, ast.Del))}
-                for node in ast.walk(init):
-                    if not (isinstance(node, ast.Assign) and len(node.targets) == 1):
-                        continue
-                    t, v = node.targets[0], node.value
-                    if not (isinstance(t, ast.Attribute) and t.attr == field and isinstance(t.value, ast.Name)
-                            and t.value.id == init.args.args[0].arg):
-                        continue
-                    if isinstance(v, ast.Constant):
-                        legit.add(id(t))
-                        seen = True
-                    elif isinstance(v, ast.Name) and v.id not in rebound:
-                        ann = next((x.annotation for x in init.args.args + init.args.kwonlyargs if x.arg == v.id), None)
-                        if ann is not None and annotation_type(self, k[0], ann) == "arr":
-                            legit.add(id(t))
-                            seen = True
-        ok = seen
-        for tree in self.mods.values():
-            for node in ast.walk(tree):
-                if isinstance(node, ast.Attribute) and node.attr == field and isinstance(node.ctx, (ast.Store, ast.Del)) \
-                        and id(node) not in legit:
-                    ok = False
-                if isinstance(node, ast.Name) and node.id in ("setattr", "delattr", "__dict__"):
-                    ok = False
-                if isinstance(node, ast.Attribute) and node.attr in ("__dict__", "__setattr__"):
-                    ok = False
-        self._plain[field] = ok
-        return ok
+    def plain_for(self, classes, field):
+        """"arr" when every exact instance of one of `classes` holds a plain value (ndarray / scalar / str / Path / None)
+        in attribute `field`, ("list", t) when a builtin container of plain values (t = "arr" or again such a list), else
+        None (see Translator.infer_plain_fields)"""
+        pf = getattr(self, "plain_fields", None)
+        if not classes or pf is None:
+            return None
+        ts = {pf.get((k, field)) for k in classes}
+        return next(iter(ts)) if len(ts) == 1 else None
 
     IMMUTABLE_CALLS = {"np.sqrt", "np.dtype", "Path", "pathlib.Path", "logging.getLogger", "re.compile", "np.float64",
                        "np.float32", "float", "int", "str", "bytes", "frozenset", "np.exp", "np.log", "math.sqrt"}
@@ -775,6 +748,135 @@ def definitely_bound(ir, bound, rets=None, jumps=None):
     raise ValueError(k)
 
 
+def py_maybe_unbound(fn) -> set:
+    """names of the Python function `fn` that its own control flow may read before binding them (the same optimistic
+    rules as `definitely_bound`: a loop body ran, a `try` body completed).  Python raises UnboundLocalError on such a
+    path; an IR variable of such a name that `definitely_bound` finds possibly unbound is the program's doing, not the
+    translator's."""
+    params = {a.arg for a in fn.args.posonlyargs + fn.args.args + fn.args.kwonlyargs}
+    params |= {a.arg for a in (fn.args.vararg, fn.args.kwarg) if a}
+    local = assigned_names(fn) | params
+    flagged = set()
+
+    def reads(node, bound, extra=frozenset()):
+        """names read by an expression (nested function bodies run later: skipped; comprehension targets are their own)"""
+        if node is None:
+            return
+        if isinstance(node, (ast.Lambda, ast.FunctionDef)):
+            return
+        if isinstance(node, (ast.ListComp, ast.SetComp, ast.GeneratorExp, ast.DictComp)):
+            ex = set(extra)
+            for g in node.generators:
+                reads(g.iter, bound, frozenset(ex))
+                ex |= {n.id for n in ast.walk(g.target) if isinstance(n, ast.Name)}
+                for c in g.ifs:
+                    reads(c, bound, frozenset(ex))
+            for part in ([node.key, node.value] if isinstance(node, ast.DictComp) else [node.elt]):
+                reads(part, bound, frozenset(ex))
+            return
+        if isinstance(node, ast.Name):
+            if isinstance(node.ctx, ast.Load) and node.id in local and node.id not in bound and node.id not in extra:
+                flagged.add(node.id)
+            return
+        for ch in ast.iter_child_nodes(node):
+            reads(ch, bound, extra)
+
+    def binds(target):
+        return {n.id for n in ast.walk(target) if isinstance(n, ast.Name) and isinstance(n.ctx, (ast.Store,))}
+
+    def walrus(node):
+        return {n.target.id for n in ast.walk(node) if isinstance(n, ast.NamedExpr) and isinstance(n.target, ast.Name)} if node is not None else set()
+
+    def join(a, b):
+        return b if a is None else a if b is None else a & b
+
+    def block(stmts, bound, jumps):
+        for s in stmts:
+            if bound is None:
+                return None
+            bound = stmt(s, bound, jumps)
+        return bound
+
+    def stmt(s, bound, jumps):
+        if isinstance(s, (ast.FunctionDef, ast.ClassDef)):
+            return bound | {s.name}
+        if isinstance(s, (ast.Import, ast.ImportFrom)):
+            return bound | {(a.asname or a.name).split(".")[0] for a in s.names}
+        if isinstance(s, ast.Assign):
+            reads(s.value, bound)
+            for t in s.targets:
+                reads(t, bound)
+            out = bound | walrus(s.value)
+            for t in s.targets:
+                out = out | binds(t)
+            return out
+        if isinstance(s, ast.AnnAssign):
+            reads(s.value, bound)
+            reads(s.target, bound)
+            return bound | (binds(s.target) if s.value is not None else set()) | walrus(s.value)
+        if isinstance(s, ast.AugAssign):
+            reads(s.value, bound)
+            if isinstance(s.target, ast.Name) and s.target.id in local and s.target.id not in bound:
+                flagged.add(s.target.id)
+            reads(s.target, bound)
+            return bound | binds(s.target)
+        if isinstance(s, ast.Return):
+            reads(s.value, bound)
+            return None
+        if isinstance(s, ast.Raise):
+            reads(s.exc, bound)
+            reads(s.cause, bound)
+            return None
+        if isinstance(s, (ast.Break, ast.Continue)):
+            jumps.append(bound)
+            return None
+        if isinstance(s, ast.If):
+            reads(s.test, bound)
+            b0 = bound | walrus(s.test)
+            return join(block(s.body, b0, jumps), block(s.orelse, b0, jumps))
+        if isinstance(s, (ast.For, ast.While)):
+            inner = []
+            if isinstance(s, ast.For):
+                reads(s.iter, bound)
+                reads(s.target, bound)
+                b0 = bound | binds(s.target) | walrus(s.iter)
+            else:
+                reads(s.test, bound)
+                b0 = bound | walrus(s.test)
+            end = block(s.body, b0, inner)
+            for j in inner:
+                end = join(end, j)
+            end = end if end is not None else bound
+            return block(s.orelse, end, jumps) if s.orelse else end
+        if isinstance(s, ast.With):
+            for it in s.items:
+                reads(it.context_expr, bound)
+                if it.optional_vars is not None:
+                    reads(it.optional_vars, bound)
+                    bound = bound | binds(it.optional_vars)
+            return block(s.body, bound, jumps)
+        if isinstance(s, ast.Try):
+            end = block(s.body, bound, jumps)
+            after = block(s.orelse, end, jumps) if end is not None else None
+            for h in s.handlers:
+                hb = (end if end is not None else bound) | ({h.name} if h.name else set())
+                after = join(after, block(h.body, hb, jumps))
+            if s.finalbody:
+                after = block(s.finalbody, after if after is not None else bound, jumps) if after is not None else \
+                    (block(s.finalbody, bound, jumps) and None)
+            return after
+        if isinstance(s, ast.Delete):
+            for t in s.targets:
+                reads(t, bound)
+            return bound
+        for ch in ast.iter_child_nodes(s):
+            reads(ch, bound)
+        return bound | walrus(s)
+
+    block(fn.body, frozenset(params), [])
+    return flagged
+
+
 def strip_markers(ir):
     """the IR proper: control-flow markers removed (`scope` is a `seq`; an alternative that is only an exception edge
     is `skip`)"""
@@ -795,50 +897,109 @@ class Translator:
 
     def __init__(self, prog: Program):
         self.prog = prog
-        self.field_log = {}  # attribute name -> {id(store site): every value translated there so far was plain}
+        self._py_unbound = {}
+        self.field_log = {}  # attribute name -> {id(store site): type of every value translated there so far | None}
+        self.list_violation = False
         self.reset()
 
     def infer_plain_fields(self):
-        """attribute names that only ever receive plain values (ndarray / scalar / str, as judged by this translator at
-        every syntactic store site of the program, each translated in its own function): instances of pewlib classes
-        hold a plain value there.  Two rounds, the first one assuming no such field."""
+        """(class, attribute) pairs such that every exact instance of the class holds a plain value (ndarray / scalar /
+        str / Path / None: no references) in the attribute.  A store site `self.<f> = v` inside a method can affect the
+        instances the method can run on; any other store site (`obj.<f> = v` elsewhere) every class.  (K, f) is kept iff
+        every store site that can affect K stores a value this translator judges plain, each judged in its own function.
+        Greatest fixpoint (start from all pairs, drop violators until stable): sound as an invariant — assuming the
+        fields hold plain values when READ, every WRITE stores a plain value — for objects that only pewlib's code builds
+        and modifies, which the harness asserts on every pewlib object it passes (`plain_field_violations`)."""
         prog = self.prog
-        sites = {}
-        owners = []
+        prog.plain_fields = {}
+        glob, local, owners = {}, {}, []   # f -> {site}, (class def, method) -> {(f, site)}
         for (mod, name), fn in prog.funcs.items():
             owners.append((mod, fn, None))
         for key, cls in prog.classes.items():
             for n in cls.body:
                 if isinstance(n, ast.FunctionDef):
                     owners.append((key[0], n, key))
-        unsafe = False
+        in_method = set()
+        for key, cls in prog.classes.items():
+            for fn in cls.body:
+                if not isinstance(fn, ast.FunctionDef) or not fn.args.args or "staticmethod" in decorators(fn) \
+                        or "classmethod" in decorators(fn):
+                    continue
+                me = fn.args.args[0].arg
+                rebound = any(isinstance(n, ast.Name) and n.id == me and isinstance(n.ctx, (ast.Store, ast.Del)) for n in ast.walk(fn))
+                for node in ast.walk(fn):
+                    if isinstance(node, ast.Attribute) and isinstance(node.ctx, (ast.Store, ast.Del)) \
+                            and isinstance(node.value, ast.Name) and node.value.id == me and not rebound:
+                        local.setdefault((key, fn.name), set()).add((node.attr, id(node)))
+                        in_method.add(id(node))
         for tree in prog.mods.values():
             for node in ast.walk(tree):
-                if isinstance(node, ast.Attribute) and isinstance(node.ctx, (ast.Store, ast.Del)):
-                    sites.setdefault(node.attr, set()).add(id(node))
-                if isinstance(node, ast.Name) and node.id in ("setattr", "delattr", "__dict__"):
-                    unsafe = True
-                if isinstance(node, ast.Attribute) and node.attr in ("__dict__", "__setattr__"):
-                    unsafe = True
-        prog.plain_fields = set()
-        if unsafe:
-            return
-        for _round in range(2):
+                if isinstance(node, ast.Attribute) and isinstance(node.ctx, (ast.Store, ast.Del)) and id(node) not in in_method:
+                    glob.setdefault(node.attr, set()).add(id(node))
+                if (isinstance(node, ast.Name) and node.id in ("setattr", "delattr", "__dict__")) or \
+                        (isinstance(node, ast.Attribute) and node.attr in ("__dict__", "__setattr__")):
+                    return  # attributes may be set by name: nothing is known about any field
+        def super_calls(cls):
+            return {n.attr for n in ast.walk(cls) if isinstance(n, ast.Attribute) and isinstance(n.value, ast.Call)
+                    and isinstance(n.value.func, ast.Name) and n.value.func.id == "super"}
+        affects = {}   # class K -> {(f, site)} of the methods that can run on an exact K
+        for K in prog.classes:
+            acc = set()
+            supers = set()
+            for B in prog.mro(K):
+                supers |= super_calls(prog.classes[B])
+            for B in prog.mro(K):
+                for fn in prog.classes[B].body:
+                    if isinstance(fn, ast.FunctionDef):
+                        m = prog.find_method(K, fn.name)
+                        if (m is not None and m[0] == B) or fn.name in supers:
+                            acc |= local.get((B, fn.name), set())
+            affects[K] = acc
+        def plain_type(t):
+            return t == "arr" or (isinstance(t, tuple) and t[0] == "list" and plain_type(t[1]))
+        # first guess (round 0, nothing assumed): the one plain type found at the store sites that can be judged without
+        # assumptions; then the greatest fixpoint below that guess: a pair is dropped as soon as one of its sites stores
+        # anything else under the current assumptions
+        cand = None
+        for _round in range(12):
+            prog.plain_fields = dict(cand or {})
             self.field_log = {}
+            self.list_violation = False
             for mod, fn, cls_key in owners:
                 if not any(isinstance(n, ast.Attribute) and isinstance(n.ctx, ast.Store) for n in ast.walk(fn)):
                     continue
-                decs = decorators(fn)
-                ck = cls_key if cls_key and "staticmethod" not in decs else None
+                ck = cls_key if cls_key and "staticmethod" not in decorators(fn) else None
+                self.reset()
                 try:
-                    self._translate(mod, fn, ck, False, self.param_names(fn)) if self.reset() is None else None
+                    self._translate(mod, fn, ck, False, self.param_names(fn))
                 except Unsupported:
                     pass
-            prog.plain_fields = {f for f, ids in sites.items()
-                                 if set(self.field_log.get(f, {})) == ids and all(self.field_log[f].values())}
+            site_t = {sid: t for sites in self.field_log.values() for sid, t in sites.items()}
+            new = {}
+            for K, acc in affects.items():
+                for f in {g for g, _ in acc}:
+                    sids = [sid for g, sid in acc if g == f] + list(glob.get(f, ()))
+                    ts = {site_t.get(sid) for sid in sids}
+                    if cand is None:
+                        ts.discard(None)
+                    t = next(iter(ts)) if len(ts) == 1 else None
+                    if plain_type(t) and not (t != "arr" and self.list_violation) and (cand is None or cand.get((K, f)) == t):
+                        new[(K, f)] = t
+            if cand is not None and new == cand:
+                break
+            cand = new
+        else:
+            cand = {}
+        prog.plain_fields = cand
         self.reset()
 
+    def py_unbound(self, fn):
+        if id(fn) not in self._py_unbound:
+            self._py_unbound[id(fn)] = py_maybe_unbound(fn)
+        return self._py_unbound[id(fn)]
+
     def reset(self):
+        self.var_name = {}  # IR variable of a Python name -> (function node, name)
         self.nvars = 0
         self.nsites = 0
         self.diag = []      # unknown calls etc.
@@ -870,11 +1031,15 @@ class Translator:
         try:
             ir = self._translate(mod, fn, cls_key, constructor, params)
             # fail closed per variable: one that is read while possibly unbound is bound to `unknown` at entry
-            poisoned = []
-            for _ in range(40):
-                _, bad = definitely_bound(ir, frozenset())
+            poisoned, own_doing = [], set()
+            for _ in range(200):
+                _, bad = definitely_bound(ir, frozenset(own_doing))
                 if bad is None:
                     break
+                owner = self.var_name.get(bad)
+                if owner is not None and owner[1] in self.py_unbound(owner[0]):
+                    own_doing.add(bad)  # the Python function itself may read this name before binding it
+                    continue
                 poisoned.append(bad)
                 ir = ["seq", [["bind", bad, ["unknown"]], ir]]
             else:
@@ -889,6 +1054,8 @@ class Translator:
 
     def _translate(self, mod, fn, cls_key, constructor, params):
         scope = Scope(self, mod, cls_key, top=True)
+        scope.fn_name = fn.name if cls_key is not None else None
+        scope.fn_node = fn
         scope.setup_function(fn)
         rebinds = assigned_names(fn)
         scope.stable = {n for n, _ in params} - rebinds
@@ -1077,6 +1244,8 @@ class Scope:
         self.res_arr = True
         self.selfvar = None   # variable of `self`
         self.def_cls = cls_key
+        self.fn_name = None   # name of the method being translated (for `self`'s possible classes)
+        self.fn_node = None   # the function whose body this scope translates
         self.localfuncs = {}
         self.funcvals = {}    # name -> tuple of function values the name certainly holds one of (see func_locals)
         self.fn_closure = {}  # id(FunctionDef | Lambda) -> Scope it closes over
@@ -1163,6 +1332,8 @@ class Scope:
     def var(self, name):
         if name not in self.vars:
             self.vars[name] = self.tr.new()
+            if self.fn_node is not None:
+                self.tr.var_name[self.vars[name]] = (self.fn_node, name)
         return self.vars[name]
 
     def name_val(self, name):
@@ -1267,6 +1438,8 @@ class Scope:
             return  # an object created just now: no other name of it exists
         self.drop_field_facts(None if label == WILD else label)
         if not self.is_arr(val):
+            if isinstance(base.tag, tuple) and base.tag[0] == "list" and label == WILD:
+                self.tr.list_violation = True  # something not plain goes into a container typed as holding plain values
             self.drop_plain_item_tags()
 
     def drop_plain_item_tags(self):
@@ -1580,8 +1753,9 @@ class Scope:
                 if any(d.endswith(".setter") for d in decorators(fn)):
                     self.inline(key[0], fn, [base, val], {}, out, stack, cls_key=key)
             self.write(out, base)
-            self.tr.field_log.setdefault(target.attr, {})[id(target)] = self.is_arr(val) and \
-                self.tr.field_log.get(target.attr, {}).get(id(target), True)
+            t_new = "arr" if (self.is_arr(val) or val.neutral()) else (val.tag if isinstance(val.tag, tuple) and val.tag[0] == "list" else None)
+            log = self.tr.field_log.setdefault(target.attr, {})
+            log[id(target)] = t_new if log.get(id(target), t_new) == t_new else None
             if not (target.attr in ("dtype", "shape") and self.is_arr(base)):
                 self.store(out, base, self.tr.label(target.attr), val)
                 if len(base.own) == 1 and not base.unknown and self.is_arr(val):
@@ -1793,10 +1967,22 @@ class Scope:
         is_fld_arr = len(base.own) == 1 and not base.unknown and ("fld", next(iter(base.own)), e.attr) in self.arr
         pewlib_obj = (isinstance(base.tag, tuple) and base.tag[0] == "cls") or \
             (self.selfvar is not None and base.own == {self.selfvar} and self.cls_key is not None)
-        if pewlib_obj and self.tr.prog.plain_field(e.attr):
-            is_fld_arr = True
+        if pewlib_obj:
+            if isinstance(base.tag, tuple) and base.tag[0] == "cls" and not (self.selfvar is not None and base.own == {self.selfvar}):
+                classes = self.tr.prog.subclasses(base.tag[1])
+            else:
+                classes = self.tr.prog.self_classes(self.def_cls or self.cls_key, self.fn_name) if self.fn_name else \
+                    self.tr.prog.subclasses(self.cls_key)
+            ft = self.tr.prog.plain_for(classes, e.attr)
+            if ft == "arr":
+                is_fld_arr = True
+            elif ft is not None:  # a builtin container of plain values
+                v = self.elem(out, base, self.tr.label(e.attr), view=False)
+                return Val(v.own, False, False, True, ft)
+        if is_fld_arr:
+            view = False  # a data attribute of a pewlib object
         val = self.elem(out, base, self.tr.label(e.attr), view=view)
-        if is_fld_arr and not view:
+        if is_fld_arr:
             for v in val.own:
                 self.arr.add(v)
             val = Val(val.own, False, True)
@@ -2168,7 +2354,7 @@ class Scope:
                     res = res | self.inline(key[0], fn, a1, kwargs, out, stack, cls_key=key, def_cls=key, arg_nodes=n1)
                 return res
             cands = []  # not a method of that hierarchy: an attribute holding a callable, or a builtin of a base type
-        elif recv.tag is not None:
+        elif recv.tag is not None and not (isinstance(recv.tag, tuple) and recv.tag[0] == "cls"):
             cands = []  # a library object / a list: never one of pewlib's classes
         if cands and not (builtin and (is_arr or is_cont)):
             for key, fn in cands:
@@ -2198,9 +2384,9 @@ class Scope:
             if not (name == "byteswap" and keyword_literal(e, "inplace") == ("absent",) and not args):
                 self.write(out, recv)
             if not is_arr:
-                if name in STORING_SELF or name not in STORING_ELEMS:
+                if name in STORING_SELF:
                     self.store(out, recv, WILD, union(flow))
-                if name in STORING_ELEMS or name not in STORING_SELF:
+                if name in STORING_ELEMS:
                     self.store(out, recv, WILD, self.elem(out, union(flow), view=True))
             res = res | self.elem(out, recv, view=True) | (union(flow) if name == "setdefault" else FRESH)
             handled = True
@@ -2452,7 +2638,9 @@ class Scope:
             sc.selfvar = closure.selfvar
             sc.weak = set(closure.weak)
         sc.setup_function(fn)
+        sc.fn_node = fn
         sc.def_cls = def_cls or cls_key
+        sc.fn_name = closure.fn_name if closure is not None else (fn.name if cls_key is not None else None)
         sc.res = self.tr.new()
         sc.res_tags, sc.res_cont = [], True
         out.append(["bind", sc.res, ["fresh", self.tr.site()]])
